@@ -186,6 +186,26 @@ theorem sprintfAdd_bounded {real len sz : Nat} (h : sprintfAdd real len = .ok sz
     · injection h with h; left; omega
     · cases h
 
+theorem partOf_le (n kept : Nat) {sz : Nat} (h : partOf n kept = .ok sz) : sz ≤ n := by
+  unfold partOf at h; injection h with h; omega
+
+theorem sameSize_eq (n : Nat) {sz : Nat} (h : sameSize n = .ok sz) : sz = n := by
+  unfold sameSize at h; injection h with h; omega
+
+theorem mapKeys_bounded {c : Nat} {l : Int} {sz : Nat} (hl : LimitOk l) (h : mapKeys c l = .ok sz) : (sz : Int) ≤ l :=
+  allocateArray_bounded hl h
+
+theorem sprintfFinish_bounded {real : Nat} {l : Int} {sz : Nat} (hl : LimitOk l) (h : sprintfFinish real l = .ok sz) :
+    (sz : Int) ≤ l := by
+  unfold sprintfFinish at h
+  split at h
+  · cases h
+  · rename_i hle
+    injection h with h
+    rw [toSizeT_of_limit hl] at hle
+    have := hl.1
+    omega
+
 /-- replace_string: while the scan runs, fewer than MAX characters are in the MAX + 1 byte destination -/
 theorem replaceRun_lt {limit : Nat} {steps : List RStep} {d0 d : Nat}
     (h : replaceRun limit steps d0 = some d) : d < limit ∨ d = d0 := by
